@@ -291,7 +291,10 @@ def compose(R, pid, tier, seed, bnd):
             _laws_component(R, pid)
     if pid in ("C19", "C20") or (pid == "C04" and bnd):
         _scenario_component(R, pid)
-    # lemma scripts (Lean) and canaries are run by the thorough tier
+    if tier == "quick" and has_vc and not R.violations:
+        from .extras import audit
+        audit(R, pid, budget_s=1.0)
+    # lemma scripts (Lean), the longer audit and the mutant self-test are run by the thorough tier
     if tier == "thorough":
         from .extras import thorough_extras
         thorough_extras(R, pid)
